@@ -367,3 +367,26 @@ Definition gbackend_reload (cb : list (Z * list (Z * Z))) (c : gcluster) : gclus
                       | Some conf => mkGsub (gname s) (gweight s) (update conf (gbrr s))
                       | None => s end) (gsubs c))
        (gtotal c) (gsingle c) (gavail c) (grmax c) (gcross c).
+
+(* ---- the gslb hash conf: cluster_conf.HashConfCheck (loader) and BalanceGslb.getHashKey (user) ----
+   hconf = (HashStrategy 0 ClientIdOnly / 1 ClientIpOnly / 2 ClientIdPreferred / 3 RequestURI,
+            HashHeader kind 0 absent (nil) / 1 "" / 2 plain header name / 3 "Cookie:UID" / 4,5 cookie form with empty key,
+            SessionSticky).
+   The check fills the defaults (strategy ClientIpOnly, sticky false) and rejects an unknown strategy and, for the two
+   CLIENTID strategies, a missing / empty / invalid header.  getHashKey dereferences *HashHeader for exactly those two
+   strategies, so an installed conf must have passed the check. *)
+Definition hconf := (Z * Z * bool)%type.
+Definition hc_default : hconf := (1, 0, false).          (* NewBalanceGslb *)
+Definition hash_conf_check (sp strat hk stp : Z) (st : bool) : option hconf :=
+  let s := if sp =? 0 then 1 else strat in
+  let sticky := if stp =? 0 then false else st in
+  if negb ((0 <=? s) && (s <=? 3)) then None
+  else if ((s =? 0) || (s =? 2)) && negb ((hk =? 2) || (hk =? 3)) then None
+  else Some (s, hk, sticky).
+Definition hc_ok (hc : hconf) : bool :=
+  let '(s, hk, _) := hc in negb (((s =? 0) || (s =? 2)) && (hk =? 0)).
+Definition gslb_balance_hc (hc : hconf) (algo h retry : Z) (sc : script) (c : gcluster) : gcluster * res * Z * Z :=
+  let '(s, hk, sticky) := hc in
+  if retry >? grmax c + gcross c then (c, RErr 3, -1, retry)
+  else if ((s =? 0) || (s =? 2)) && (hk =? 0) then (c, RPanic, -1, retry)      (* *bal.hashConf.HashHeader on nil *)
+  else gslb_balance (if sticky then 2 else algo) h retry sc c.
